@@ -7,11 +7,31 @@
    entries (name, content id, enabled, description).  Proofs: factory/OpsFacts.v.
    The model is tied to factory.py by the correspondence check (every operation's return value /
    exception and the whole observable state after every step, on exhaustive and random operation
-   sequences); the reference list is compared with the implementation directly as well. *)
+   sequences); the reference list is compared with the implementation directly as well.
+   On real command trees (factory/Build.v, BuildHistory.v): the enabled flag and the `if false` wrapper of the
+   rendered script agree in every reachable state (C12_rendering_agrees_with_flags). *)
 From Coq Require Import List NArith Bool Arith.
 From SV Require Import Bytes Ops OpsFacts.
 Import ListNotations.
 Local Open Scope nat_scope.
+From SV Require Import Lexer Tables ArgCheck Machine Printer GenTables Text Build BuildFacts BuildSet Load LoadFacts BuildHistory.
+
+(* on real command trees (factory/Build.v): for every set reached by the editing operations from documented definitions, the rendered script parses, and a filter is wrapped in `if false` in what the parser reads back exactly when its enabled flag is off *)
+Theorem C12_rendering_agrees_with_flags :
+  forall (loaded : list bytes) (st : bstate) (name_pre desc_pre : bytes) (fuel : nat),
+  reach loaded st ->
+  b_set st <> [] ->
+  (5 <= fuel)%nat ->
+  marker_ok name_pre ->
+  marker_ok desc_pre ->
+  names_ok name_pre desc_pre (b_set st) ->
+  exists (text : bytes) (ns : list node) (lfs : list lfilter),
+    b_render gen_tables loaded fuel name_pre desc_pre st = BOk text /\
+    parse gen_tables text = Accept ns /\
+    snd (from_parser_result name_pre desc_pre ns) = lfs /\
+    map (fun f : lfilter => negb (is_if_false (lf_content f))) lfs = map f_enabled (b_set st).
+Proof. exact BuildHistory.history_flags_agree. Qed.
+Print Assumptions C12_rendering_agrees_with_flags.
 
 (* a concrete set represents the reference list sp exactly when it is the image of sp: enabled filters hold their plain content, disabled ones hold it wrapped once in if-false, flags agree *)
 Theorem C12_representation :
